@@ -1383,6 +1383,12 @@ class CryptographyEngine(api.CryptographicEngine):
                 'For signing, an RSA key must be used.'
             )
 
+        if hash_alg is None:
+            raise exceptions.InvalidField(
+                "The hashing algorithm '{0}' is not supported for "
+                "signing.".format(hash_algorithm)
+            )
+
         if padding:
             padding_method = self._asymmetric_padding_methods.get(
                 padding, None
